@@ -204,33 +204,36 @@ class SqliteStateStore(Generic[MODEL_T]):
 
     async def set_state(self, state: MODEL_T) -> None:
         """Replace or merge into the current state model."""
-        conn = self._connect()
-        try:
-            cursor = conn.cursor()
-            cursor.execute(
-                "SELECT state_json FROM workflow_state WHERE run_id = ?",
-                (self._run_id,),
-            )
-            row = cursor.fetchone()
+        # Same lock as edit_state()/set(): a whole-state write must not land in the
+        # middle of a suspended edit_state() block, which would overwrite it on exit.
+        async with self._lock:
+            conn = self._connect()
+            try:
+                cursor = conn.cursor()
+                cursor.execute(
+                    "SELECT state_json FROM workflow_state WHERE run_id = ?",
+                    (self._run_id,),
+                )
+                row = cursor.fetchone()
 
-            current_state: Any
-            if row is None:
-                # No row yet: the current state is the type's default, exactly as
-                # _load_state() would create it.  Only a state type that cannot be
-                # built from defaults is seeded directly with the given state.
-                try:
-                    current_state = self._create_default_state()
-                except ValidationError:
-                    self._save_state(state, conn)
-                    conn.commit()
-                    return
-            else:
-                current_state = self._deserialize_state(row[0])
-            merged = merge_state(current_state, state)
-            self._save_state(merged, conn)  # type: ignore[arg-type]
-            conn.commit()
-        finally:
-            self._release(conn)
+                current_state: Any
+                if row is None:
+                    # No row yet: the current state is the type's default, exactly as
+                    # _load_state() would create it.  Only a state type that cannot be
+                    # built from defaults is seeded directly with the given state.
+                    try:
+                        current_state = self._create_default_state()
+                    except ValidationError:
+                        self._save_state(state, conn)
+                        conn.commit()
+                        return
+                else:
+                    current_state = self._deserialize_state(row[0])
+                merged = merge_state(current_state, state)
+                self._save_state(merged, conn)  # type: ignore[arg-type]
+                conn.commit()
+            finally:
+                self._release(conn)
 
     async def get(self, path: str, default: Any = ...) -> Any:
         """Get a nested value using dot-separated paths."""
